@@ -22,7 +22,7 @@ func (c02) Cases(t fw.Tier) int {
 }
 func (c02) Rule() string {
 	return "case kinds: (a, 60%) a generated draft-07 document (either $schema spelling; definitions, dependencies in both forms, items in both forms + additionalItems, $id-as-anchor, $ref with asserting and applicator siblings that must be ignored) " +
-		"x 14 instances vs. the reference model in draft-07 mode; (b, 30%) a draft-07 root that reaches a Loader-supplied draft-07 document (with or without its own $schema, either spelling) through a $ref at the root or below allOf / properties / items / anyOf (depth 0-3), " +
+		"x 14 instances vs. the reference model in draft-07 mode; (b, 30%) a draft-07 root that reaches a Loader-supplied draft-07 document (with or without its own $schema, either spelling) through a $ref at the root or below allOf / properties / items / anyOf (depth 0-3), directly or through one or two intermediate Loader documents that declare no $schema either, " +
 		"the remote using $id-anchors, definitions, dependencies, items arrays, so that reading it under the wrong draft changes a verdict or makes Resolve fail; (c, 10%) the configuration sweep of the root's $schema: 40 unsupported values " +
 		"(other drafts, missing '#', case variants, trailing slash, random strings) on always-true schemas x instances: Validate must return an error every time. " +
 		"Non-trivial for (a)/(b): the 2020-12 reading of the same document gives another verdict or cannot be built (the mode switch mattered); for (c) every case. Distinct by (kind, wrapper, draft-specific keyword set, verdict)."
@@ -154,12 +154,46 @@ func (c02) remote(c *fw.Case) {
 		wrapInst = func(v any) any { return map[string]any{"a": v} }
 	}
 	root["$schema"] = d7uri(c)
-	mc := &modelCase{draft: refmodel.D7, rootText: gen.Text(root), baseURI: "http://h/dir/root.json", docs: map[string]string{uri: gen.Text(rm)}}
+	docs := map[string]string{uri: gen.Text(rm)}
+	hops := 1
+	if r.IntN(2) == 0 {
+		// two (or three) hops: the root reaches the draft-sensitive document through intermediate documents that
+		// declare no $schema either, so the draft has to be inherited along the whole chain
+		hops = 2 + r.IntN(2)
+		prev := uri
+		for h := 2; h <= hops; h++ {
+			mid := fmt.Sprintf("http://h/dir/mid%d.json", h)
+			var body map[string]any
+			switch r.IntN(3) {
+			case 0:
+				body = map[string]any{"$ref": prev}
+			case 1:
+				body = map[string]any{"allOf": []any{map[string]any{"$ref": gen.Pick(r, []string{prev, prev[len("http://h/dir/"):]})}}}
+			default:
+				body = map[string]any{"definitions": map[string]any{"x": map[string]any{"$ref": prev}}, "anyOf": []any{map[string]any{"$ref": "#/definitions/x"}}}
+			}
+			if r.IntN(4) == 0 {
+				body["$schema"] = d7uri(c)
+			}
+			docs[mid] = gen.Text(body)
+			prev = mid
+		}
+		// the root's reference now points at the outermost intermediate document
+		retarget := func(m map[string]any) {
+			m["$ref"] = prev
+		}
+		retarget(ref)
+	}
+	mc := &modelCase{draft: refmodel.D7, rootText: gen.Text(root), baseURI: "http://h/dir/root.json", docs: docs}
 	mod, rs, _, ok := mc.build(c)
 	if !ok {
 		return
 	}
-	u := &refmodel.Universe{Draft: refmodel.D2020, BaseURI: mc.baseURI, Root: gen.Parse(mc.rootText), Docs: map[string]any{uri: gen.Parse(mc.docs[uri])}}
+	altDocs := map[string]any{}
+	for k, v := range mc.docs {
+		altDocs[k] = gen.Parse(v)
+	}
+	u := &refmodel.Universe{Draft: refmodel.D2020, BaseURI: mc.baseURI, Root: gen.Parse(mc.rootText), Docs: altDocs}
 	alt, err := refmodel.Build(u)
 	if err != nil {
 		alt = nil
@@ -175,7 +209,7 @@ func (c02) remote(c *fw.Case) {
 		}
 		if modeMattered(alt, inst, valid) {
 			c.Count("mode_switch_mattered_remote", 1)
-			c.Nontrivial(fmt.Sprintf("b|w%d|own=%v|%v|%s", wrapper, ownSchema, valid, groupKeyOf(rm)))
+			c.Nontrivial(fmt.Sprintf("b|w%d|hops%d|own=%v|%v|%s", wrapper, hops, ownSchema, valid, groupKeyOf(rm)))
 		}
 	}
 	if c.Idx%3000 == 6 {
